@@ -262,6 +262,7 @@ _RESERVED_WORDS = frozenset(
         "for",
         "empty",
         "blank",
+        "continue",
     ]
 )
 
